@@ -198,6 +198,10 @@ pub fn run_sb_check(id: &str, tier: &str, seed: u64) -> i32 {
             if n4 > 0 {
                 a.merge(report::par_acc(n4, |r| sb_checks::run_c07_c18(seed, r, &format!("{}-d4", id), c07, c18, 4, 600)));
             }
+            // deep mode: D = 5 (killer moves, null-move pruning and re-searches all active), a
+            // sampled handful of expiry points per position
+            let n5 = if quick { 16 } else { 400 };
+            a.merge(report::par_acc(n5, |r| sb_checks::run_c07_c18(seed, r, &format!("{}-d5", id), c07, c18, 5, 1)));
             if c18 {
                 // stream view over whole sessions (what a GUI sees between go and bestmove)
                 let ns = if quick { 4_000 } else { 150_000 };
